@@ -18,6 +18,8 @@ INT_POOL = [1, 2, 3, 0, -1, 7, 10, 4]
 STR_POOL = ["a", "b", "ab", "abc", "A", "1", "arm 2", "b ", "z"]
 FLOAT_POOL = [0.5, 1.5, 2.0, -1.0, 2.5, 1.0, 3.25, 0.0]
 MIX_POOL = [1, 2.5, 3, 0.5, 2, -1.5, 4, 0]
+# float labels that differ in the last digits only (distinct arms all the same)
+FLOAT_CLOSE_POOL = [2499.99, 2500.0, 2500.01, 0.3, 0.1 + 0.2, 1e-9, 2e-9, 1.0000001]
 POOLS = {"int": INT_POOL, "str": STR_POOL, "float": FLOAT_POOL, "mix": MIX_POOL}
 
 
@@ -36,6 +38,8 @@ def perm_st(draw, seq):
 def arms_st(draw, kinds=("int", "str", "float"), min_size=1, max_size=5):
     kind = draw(st.sampled_from(list(kinds)))
     pool = POOLS[kind]
+    if kind == "float" and draw(st.integers(0, 4)) == 0:
+        pool = FLOAT_CLOSE_POOL
     n = draw(st.integers(min_size, min(max_size, len(pool))))
     if max_size >= 4 and draw(st.integers(0, 11)) == 0:
         n = min(len(pool), max_size + 3)            # now and then more arms than usual
